@@ -189,9 +189,7 @@ def featuresOfL : List Pat → List String
 end
 
 def classOf (bits : Nat) (ast : List Pat) : String :=
-  if wfPats bits false ast then "wf"
-  else if hasDoubledCloseInArgL false ast then "doubled-close-paren-in-argument"
-  else "outside-wf"
+  if wfPats bits false ast then "wf" else "outside-wf"
 
 def handle : Handler := fun cas obs =>
   match cas with
@@ -210,7 +208,8 @@ def handle : Handler := fun cas obs =>
           let build := Build.current env
           let itemsRejected := (allDatesPats ast).any (fun fm => !build.dateOk fm)
           let cls := classOf C11.profile.wordBits ast
-          let feats := (featuresOfL ast).eraseDups
+          let feats := (featuresOfL ast).eraseDups ++
+            (if hasDoubledCloseInArgL false ast then ["doubled-close-paren-in-arg"] else [])
           let tags := cls :: ("depth" ++ toString (min (depthOfL ast) 6)) :: feats ++
             (if f.masked then ["masked"] else []) ++
             (if itemsRejected then ["date-format-rejected"] else []) ++
